@@ -39,6 +39,7 @@ Verdict(e) ==
      ELSE IF o.exit = 0 /\ o.net # NetOf(a.cmd, a.arg, a.testnet) THEN "cli-network-not-as-requested"
      ELSE IF o.exit = 0 /\ \E j \in 1..Len(o.rowpaths) : ~RowShaped(o.rowpaths[j]) THEN "cli-row-not-bip44-shaped"
      ELSE IF ~Bip44Shaped(a, o) THEN "cli-accepted-interval-reaching-hardened-indexes"
+     ELSE IF ~PasswordHonoured(a, o) THEN "cli-password-option-silently-dropped"
      ELSE "ok"
 
 \* Cli.tla's own variables are not used here (its predicates take the observation as arguments)
